@@ -15,8 +15,19 @@ from ..refcompare import analyze_source, compare, sibling_renames
 LIB = {}
 
 
-def _reg(qual, module, why, src, nested=()):
-    LIB[qual] = dict(module=module, why=why, src=src, nested=tuple(nested))
+def _reg(qual, module, why, src, nested=(), ignore=None, drop_guards=()):
+    LIB[qual] = dict(module=module, why=why, src=src, nested=tuple(nested), ignore=ignore, drop_guards=tuple(drop_guards))
+
+
+def _is_emptiness_test(c):
+    """len(<something>) compared with 0 (or the bare length used as a truth value)."""
+    def is_len(t):
+        return t[0] == 'call' and t[1] == ('g', 'len')
+    if c[0] == 'cmp' and c[1] in ('==', '!=', '<', '<='):
+        return (is_len(c[2]) and c[3] == ('c', 0)) or (is_len(c[3]) and c[2] == ('c', 0))
+    if c[0] == 'not':
+        return is_len(c[1])
+    return is_len(c)
 
 
 # -- creation ------------------------------------------------------------------------------
@@ -59,7 +70,7 @@ def ref(filepath, grouppath, columns, iterable, h5opts, lock):
         if lock is not None:
             lock.release()
     return nnz, total
-''')
+''', ignore=lambda p, gs: p[0] == 'continue', drop_guards=(_is_emptiness_test,))
 
 _reg('cooler.create._create.create_cooler', 'cooler.create._create',
      'a frame / dict is sorted by (bin1_id, bin2_id) and written in one step; otherwise ordered or unordered creation with every option forwarded', '''
@@ -819,7 +830,8 @@ def run_for(ctx, prop):
                     continue
                 compare(ctx, f'{rule}.{an}', ctx.fa(fa.nested[an]), None, ref_fa=ref.nested_analyses[rn], why=r['why'], extra_rename=ren)
         else:
-            compare(ctx, rule, fa, r['src'], module=r['module'], why=r['why'], normalize=r.get('normalize'))
+            compare(ctx, rule, fa, r['src'], module=r['module'], why=r['why'], normalize=r.get('normalize'),
+                    ignore=r.get('ignore'), drop_guards=r.get('drop_guards') or ())
         n += 1
     return n
 
